@@ -670,8 +670,25 @@ pub fn c02(rng: &mut Rng, thorough: bool, idx: u64) -> Spec {
             a.simple(format!("BEGIN /* {} */", t));
             let s = a.select(1, 0, "");
             a.simple(s);
+            // session state changed inside the transaction block, each in a message of its own:
+            // PREPARE and SET outlive the COMMIT, SET LOCAL does not
+            match rng.below(5) {
+                0 => {
+                    let t = a.tag();
+                    a.simple(format!("PREPARE in_txn{} AS SELECT '{}'", rng.range(1, 3), t));
+                }
+                1 => {
+                    let t = a.tag();
+                    a.simple(format!("SET statement_timeout TO {} /* {} */", rng.range(1000, 9999), t));
+                }
+                2 => {
+                    let t = a.tag();
+                    a.simple(format!("SET LOCAL work_mem TO '1MB' /* {} */", t));
+                }
+                _ => {}
+            }
             let t = a.tag();
-            a.simple(format!("COMMIT /* {} */", t));
+            a.simple(format!("{} /* {} */", if rng.chance(0.8) { "COMMIT" } else { "ROLLBACK" }, t));
             a.steps.push(Step::Hold { until: Some("b_done".into()), max_ms: 5000 });
             a.steps.push(Step::Terminate);
         }
@@ -844,9 +861,30 @@ pub fn c02(rng: &mut Rng, thorough: bool, idx: u64) -> Spec {
         let commit_idx = ca.steps.iter().position(|s| matches!(s, Step::Hold { .. })).unwrap_or(1).saturating_sub(1);
         cb.start = When::After { ev: format!("c1.s{}.done", commit_idx), delay_ms: 0 };
     }
-    let mut spec = Spec { config_toml: cfg.render(), hosts: cfg.hosts(), net, clients: vec![ca, cb], end: EndSpec { deadline_ms: 900_000, calm_ms: 100 }, ..Default::default() };
+    // A tenth of the runs: the server answers slowly while B arrives, so that the health check
+    // PgCat runs at checkout times out with its reply still on the way (the connection must not
+    // be used again with that reply unread).
+    let mut actions = Vec::new();
+    let slow_health_check = rng.chance(0.1) && !matches!(stop, "idle_in_txn" | "stmt_timeout");
+    if slow_health_check {
+        let hct = 40 + rtt + rng.range(0, 40);
+        cfg.set("healthcheck_delay", 0);
+        cfg.set("healthcheck_timeout", hct);
+        let host = cfg.hosts()[0].addr.clone();
+        let ev = match &cb.start {
+            When::After { ev, .. } => ev.clone(),
+            _ => "c1.done".to_string(),
+        };
+        actions.push(ActionSpec { at: When::After { ev: ev.clone(), delay_ms: 0 }, act: Action::HostBehaviour { host: host.clone(), b: format!("slow:{}", hct + rng.range(30, 150)) } });
+        actions.push(ActionSpec { at: When::After { ev: ev.clone(), delay_ms: hct * 3 + rng.range(100, 400) }, act: Action::HostBehaviour { host, b: "normal".into() } });
+        if let When::After { delay_ms, .. } = &mut cb.start {
+            *delay_ms += 8;
+        }
+    }
+    let mut spec = Spec { config_toml: cfg.render(), hosts: cfg.hosts(), net, clients: vec![ca, cb], actions, end: EndSpec { deadline_ms: 900_000, calm_ms: 100 }, ..Default::default() };
     spec.params = params_from(&cfg);
     spec.params.insert("cache_on".into(), serde_json::json!(cfg.pools[0].cache_size > 0));
+    spec.params.insert("slow_health_check".into(), serde_json::json!(slow_health_check));
     spec.params.insert("stop".into(), serde_json::json!(stop));
     spec.family = format!("handoff/{}", stop);
     spec.oracles = vec!["c02_clean_handoff".into(), "liveness".into()];
